@@ -196,8 +196,9 @@ class TxOutWitness(EmbitBase):
 
 
 class LTransaction(Transaction):
-    def __init__(self, *args, **kwargs):
-        super().__init__(*args, **kwargs)
+    def clear_cache(self):
+        # called by Transaction.__init__
+        super().clear_cache()
         self._hash_rangeproofs = None
         self._hash_issuance = None
 
